@@ -42,10 +42,12 @@ func (w *Waiter) Wait(ctx context.Context) (ok bool) {
 	// Get current time lazily.
 	// For once schedule, for example, we need to get it only once.
 	waitFor := next.Sub(w.lastNow)
-	if waitFor <= 0 {
+	if waitFor <= 0 && 0-waitFor >= MaxOverdueDuration {
+		// Cached time is enough to know, that we are late for sure.
 		w.overdueDuration = 0 - waitFor
 		return true
 	}
+	// Cached time can be stale, so overdue should be measured by fresh one.
 	w.lastNow = time.Now()
 	waitFor = next.Sub(w.lastNow)
 	if waitFor <= 0 {
